@@ -212,7 +212,12 @@ def as_names(cls: EnumCls, aliaser: Callable[[str], str] = lambda s: s) -> EnumC
     name_cls = type_name(None)(
         new_class(cls.__name__, (str, Enum), exec_body=exec_body)
     )
-    deserializer(Conversion(partial(getattr, cls), source=name_cls, target=cls))
+    def from_name(name):
+        # the member of name_cls has the (original) name of the member of cls,
+        # its value is the aliased name
+        return getattr(cls, name.name)
+
+    deserializer(Conversion(from_name, source=name_cls, target=cls))
 
     def get_name(obj):
         return getattr(name_cls, obj.name)
